@@ -294,3 +294,21 @@ Theorem C15_valid_input_example :
   simple_edges (ops_edges F2_A F2_B) /\
   (match subdivide release 3000 (fill_queue F2_A F2_B Union) Union with Ok (_, sorted, _) => Nat.ltb 0 (length sorted) | _ => false end) = true.
 Proof. exact valid_input_example. Qed.
+
+(** the event order is STABLE under subdivision, exact instance: dividing a sub-segment at a
+    point strictly inside it (in a store with the on-edge invariant) changes the answer of no
+    comparison between events that exist — the partner points of the two ends move along their
+    rays, and the order looks at partner points only through orientations taken at the event's
+    own point.  So the priority queue and the bubble sort of the contour stage see ONE order from
+    the beginning to the end of the sweep. *)
+From GB Require Import OrderStable.
+Theorem C15_event_order_stable_under_subdivision :
+  forall (edges : list edge) (cfg : Outcome.config) (s s' : Divide.sq NQ) (T Tr : eid) (lx ly rx ry ix iy : Q),
+  sqinv NQ s -> einv2 edges (Divide.sq_st s) -> mapped NQ (Divide.sq_st s) T ->
+  e_other (getE (Divide.sq_st s) T) = Some Tr -> e_left (getE (Divide.sq_st s) T) = true ->
+  e_point (getE (Divide.sq_st s) T) = fpt lx ly -> e_point (getE (Divide.sq_st s) Tr) = fpt rx ry ->
+  strictly_inside lx ly rx ry ix iy ->
+  Divide.divide_segment cfg s T (fpt ix iy) = Outcome.Ok s' ->
+  forall a b, mapped NQ (Divide.sq_st s) a -> mapped NQ (Divide.sq_st s) b ->
+  cmp_events (Divide.sq_st s') a b = cmp_events (Divide.sq_st s) a b.
+Proof. exact divide_keeps_event_order. Qed.
